@@ -168,8 +168,14 @@ def x_resolved(self, st, r, name):
             rv = x_module_table(self, st, r[2], r[1])
             if rv is not KeyError:
                 return rv
+            gk = "@mconst:%s.%s" % (r[1].name, name)
+            cached = st.ghost.get(gk)
+            if isinstance(cached, Ref) and cached.oid in st.heap:
+                return cached       # a module-level object exists once (a sentinel made by object(), a table built by a call)
             rv = x_eval_module_expr(self, st, r[2], r[1])
             if rv is not KeyError:
+                if isinstance(rv, Ref):
+                    st.ghost[gk] = rv
                 return rv
             return Top("global:" + name)
         return self.x_lift(st, v)
@@ -199,6 +205,8 @@ def x_eval_module_expr(self, st, node, mod, ci=None):
     depth = getattr(self, "_modexpr_depth", 0)
     if depth > 3:
         return KeyError
+    if isinstance(node, ast.Call) and isinstance(node.func, ast.Name) and node.func.id == "object" and not node.args and not node.keywords:
+        return st.alloc(HObj("object", {}, label="sentinel"))
     if isinstance(node, ast.Call):
         fn = self.ix.resolve_expr(mod, node.func)
         ext_ok = isinstance(fn, tuple) and fn and fn[0] == "ext" and (
@@ -873,6 +881,8 @@ def x_order(self, st, op, a, b):
 
 
 def x_in(self, st, a, b, node):
+    if hasattr(b, "abs_contains_in"):
+        return b.abs_contains_in(st, a)
     if hasattr(b, "abs_contains"):
         r = b.abs_contains(a)
         if r is not None:
@@ -1028,7 +1038,8 @@ def get_attr(self, st, base, attr, node, default=KeyError):
         if attr == "__class__":
             return [(st, "val", ClassVal(o.cls))]
         if attr == "__dict__":
-            return [(st, "val", Top("__dict__"))]
+            from .values import ObjDict
+            return [(st, "val", ObjDict(base))]
         if isinstance(o.cls, ClassInfo):
             for c in o.cls.mro():
                 if isinstance(c, ClassInfo) and (c.name + "." + attr) in self.attr_stubs:
